@@ -143,7 +143,19 @@ func (e *Engine) checkGlobalsImmutable() {
 }
 
 func (e *Engine) pkgByShort(short string) *types.Package {
-	return e.prog.TPkg[longPkg(short)]
+	if p := e.prog.TPkg[longPkg(short)]; p != nil {
+		return p
+	}
+	// external packages are addressed by their package name (art, context, os, ...)
+	var best *types.Package
+	for path, p := range e.prog.TPkg {
+		if p != nil && p.Name() == short && !strings.Contains(path, "internal") {
+			if best == nil || len(path) < len(best.Path()) {
+				best = p
+			}
+		}
+	}
+	return best
 }
 
 func (e *Engine) pkgForContract(fc *FuncContract) *types.Package {
